@@ -37,7 +37,7 @@ class Dataset:
     """
 
     def __init__(self, rankings: List[Ranking], name: str = "None",
-                 repetitions: List[int] = None, weights: List[float] = None):
+                 repetitions: List[int] = None, weights: List[float] = None, keep_element_types: bool = False):
         """
         Constructor for the Dataset class.
 
@@ -51,13 +51,17 @@ class Dataset:
         :param weights: A list of floats indicating the weight of each ranking.
                         Its length must match that of `rankings` if set.
         :type weights: List[float], optional
+        :param keep_element_types: If True, the elements keep their type (int or str) instead of being converted to int
+                                   when they all look like integers. Used for datasets derived from another dataset
+                                   (sub-problems), whose elements must remain those of the initial dataset.
+        :type keep_element_types: bool, optional
         """
 
         self._mapping_element_id: Dict[Element, int] = {}
         self._mapping_id_element: Dict[int, Element] = {}
 
         # analyze the input rankings
-        self._rankings, self._is_complete, self._without_ties = self._analyse_rankings(rankings)
+        self._rankings, self._is_complete, self._without_ties = self._analyse_rankings(rankings, keep_element_types)
         self._name: str = name
 
     @classmethod
@@ -104,12 +108,15 @@ class Dataset:
         dataset.name = name
         return dataset
 
-    def _analyse_rankings(self, rankings: List[Ranking]) -> Tuple[List[Ranking], bool, bool]:
+    def _analyse_rankings(self, rankings: List[Ranking],
+                          keep_element_types: bool = False) -> Tuple[List[Ranking], bool, bool]:
         """
         Analyze the input rankings to check if they are complete, with or without ties.
 
         :param rankings: Rankings to be analyzed.
         :type rankings: list of Ranking
+        :param keep_element_types: if True, the elements are not converted (see the constructor)
+        :type keep_element_types: bool
         :return: A tuple containing the final list of rankings, a boolean indicating if the rankings are complete,
                  and another boolean indicating if the rankings are without ties.
         :rtype: tuple
@@ -120,7 +127,10 @@ class Dataset:
         # check if all elements are integers. If yes, all str are converted to integers
         rankings_final: List[Ranking] = []
 
-        if Dataset._all_integers(rankings):
+        if keep_element_types:
+            for ranking in rankings:
+                rankings_final.append(Ranking([{Element(e) for e in bucket} for bucket in ranking]))
+        elif Dataset._all_integers(rankings):
             for ranking in rankings:
                 ranking_final: List[Set[Element]] = []
                 for bucket in ranking:
@@ -440,7 +450,7 @@ class Dataset:
         return Dataset(self.unified_rankings())
 
     def sub_problem_from_elements(self, elements_to_keep: Set[Element],
-                                  keep_empty_rankings: bool = False) -> 'Dataset':
+                                  keep_empty_rankings: bool = False, keep_element_types: bool = False) -> 'Dataset':
         """
         Generates a sub-problem Dataset by projecting the original Dataset on a given set of elements.
 
@@ -454,6 +464,9 @@ class Dataset:
                                     ranking, instead of being removed (the Kemeny scores of the sub-problem then
                                     count the elements non-ranked in that ranking). Default = False
         :type keep_empty_rankings: bool
+        :param keep_element_types: If True, the elements of the sub-problem keep the type (int or str) they have in this
+                                   dataset, even if the kept elements all look like integers. Default = False
+        :type keep_element_types: bool
 
         :return: A Dataset representing the sub-problem, which only includes the elements from 'elements_to_keep' set.
         :rtype: Dataset
@@ -468,9 +481,10 @@ class Dataset:
             for ranking in self.rankings
             if keep_empty_rankings or any(bucket.intersection(elements_to_keep) for bucket in ranking)
         ]
-        return Dataset(projected_rankings)
+        return Dataset(projected_rankings, keep_element_types=keep_element_types)
 
-    def sub_problem_from_ids(self, id_elements_to_keep: Set[int], keep_empty_rankings: bool = False) -> 'Dataset':
+    def sub_problem_from_ids(self, id_elements_to_keep: Set[int], keep_empty_rankings: bool = False,
+                             keep_element_types: bool = False) -> 'Dataset':
         """
         Generates a sub-problem Dataset by projecting the original Dataset on a given set of int IDs of elements.
 
@@ -482,13 +496,15 @@ class Dataset:
         :type id_elements_to_keep: Set[int]
         :param keep_empty_rankings: see sub_problem_from_elements
         :type keep_empty_rankings: bool
+        :param keep_element_types: see sub_problem_from_elements
+        :type keep_element_types: bool
 
         :return: A Dataset representing the sub-problem which only includes the elements from 'id_elements_to_keep' set.
         :rtype: Dataset
         """
 
         return self.sub_problem_from_elements(set(self._mapping_id_element[id_elem] for id_elem in id_elements_to_keep),
-                                              keep_empty_rankings)
+                                              keep_empty_rankings, keep_element_types)
 
     def write(self, path) -> None:
         """
